@@ -42,7 +42,7 @@ ASSUMPTIONS = [
 
 DIMS = [
     "clock_start", "clock_step", "hash_seed", "aged_process", "cold_process", "cwd", "in_location", "out_location",
-    "spelling", "enum", "umask", "env", "lookup_via_env", "input_meta", "tpl_location",
+    "spelling", "enum", "umask", "env", "lookup_via_env", "input_meta", "tpl_location", "machine_history",
 ]  # fmt: skip
 T0 = 1750000000.0
 
@@ -105,6 +105,12 @@ def _gen_opts(r: Rng, ds: dsdlgen.DsdlSet, lang: typing.Optional[str]) -> dict:
     if r.chance(1, 8) and lang in ("c",):
         o["override_varlen"] = True
     if r.chance(1, 8):
+        o["pp_prog"] = r.choice([True, "rename"])  # an external post-processor (a formatter sensitive to the file's name)
+    if r.chance(1, 8):
+        o["trim_blocks"] = True
+    if r.chance(1, 8):
+        o["lstrip_blocks"] = True
+    if r.chance(1, 8):
         o["gen_support"] = r.choice(["always", "never", "as-needed"])
         if o["gen_support"] == "always":
             o.pop("omit_ser", None)
@@ -142,6 +148,10 @@ def _perturb(r: Rng, dims: typing.List[str], worker_hash_seed: int) -> dict:
             w[d] = r.choice([{"TZ": "Asia/Tokyo"}, {"TZ": "America/Los_Angeles", "LANG": "C"}, {"LANG": "de_DE.UTF-8", "LC_ALL": "de_DE.UTF-8"}, {"HOME": "/nonexistent", "USER": "someone"}, {"PYTHONUTF8": "1", "COLUMNS": "20"}, {"LC_ALL": "C", "PYTHONUTF8": "0", "PYTHONCOERCECLOCALE": "0"}, {"LC_ALL": "POSIX", "PYTHONUTF8": "0", "PYTHONCOERCECLOCALE": "0", "PYTHONIOENCODING": "ascii"}])
         elif d == "lookup_via_env":
             w[d] = r.choice(["forward", "reverse"])
+        elif d == "machine_history":
+            # earlier runs by the same user on the same machine, in OTHER processes and with other options: whatever
+            # they left in TMPDIR / HOME / the cache directory must not reach the bytes of the measured run
+            w[d] = r.choice([["whitespace"], ["config"], ["whitespace", "config"], ["other_lang", "whitespace"], ["same", "config"]])
         elif d == "input_meta":
             w[d] = {"mtime": r.choice([0, 946684800, 4102444800]), "mode": r.choice([0o444, 0o644, 0o600])}
         else:
@@ -293,7 +303,13 @@ def run_case(case: dict, ctx: dict) -> dict:
             usertpl.plant(world.tpl_dir, o["support_templates"], usertpl.SUPPORT_SETS[opts["support_templates"]](o["lang"]))
         sp = delta.get("spelling", ["abs", "abs"])
         o["in_spelling"], o["outdir_spelling"] = sp[0], sp[1]
-        env = dict(delta.get("env", {}))
+        # the "machine" besides inputs and outputs: temporary, home and cache directories (pristine in every world
+        # unless the machine_history dimension ran something there before)
+        machine = os.path.join(sandbox, "machine")
+        for sub in ("tmp", "home", "cache"):
+            os.makedirs(os.path.join(machine, sub))
+        env = {"TMPDIR": os.path.join(machine, "tmp"), "HOME": os.path.join(machine, "home"), "XDG_CACHE_HOME": os.path.join(machine, "cache")}
+        env.update(delta.get("env", {}))
         if delta.get("lookup_via_env") and o.get("lookups"):
             lk = [os.path.join(world.in_dir, x) for x in o["lookups"]]
             if delta["lookup_via_env"] == "reverse":
@@ -331,6 +347,21 @@ def run_case(case: dict, ctx: dict) -> dict:
                 finally:
                     world.in_dir = saved
                 bump("probes", "prelude_over_edited_inputs")
+        for hi, variant in enumerate(delta.get("machine_history") or []):
+            po = dict(o, out_abs=os.path.join(sandbox, "prior-out-%d" % hi))
+            if variant == "whitespace":
+                po["trim_blocks"], po["lstrip_blocks"] = not o.get("trim_blocks"), not o.get("lstrip_blocks")
+            elif variant == "config":
+                cfg = os.path.join(sandbox, "prior-cfg-%d.yaml" % hi)
+                with open(cfg, "w", encoding="utf-8") as f:
+                    f.write("nunavut.lang.%s:\n  stropping_prefix: zq\n  limit_empty_lines: 0\n  options:\n    target_endianness: little\n" % o["lang"])
+                po["configs"] = [cfg]
+            elif variant == "other_lang":
+                po["lang"] = "py" if o["lang"] != "py" else "c"
+                for k in ("templates", "support_templates", "std"):
+                    po.pop(k, None)
+            prior = proc.run_invocation(world.invocation(po, **{k: v for k, v in plan.items() if k != "prelude"}))
+            bump("probes", "earlier_process_on_same_machine:%s" % ("ok" if nnvg.succeeded(prior) else "failed"))
         inv = world.invocation(o, **plan)
         locale_env = {k: v for k, v in env.items() if k in ("LC_ALL", "LANG", "LC_CTYPE", "PYTHONUTF8", "PYTHONCOERCECLOCALE", "PYTHONIOENCODING")}
         if delta.get("hash_seed") is not None or delta.get("cold_process") or locale_env:
